@@ -300,11 +300,16 @@ def r19_5(ck: Check) -> None:
         detail = show(arg)[:200]
         if arg[0] == "sl" and arg[2] is None and arg[3] == C(100) and arg[4] is None and mx == 100:
             keep = arg[1]
-            ins = [e for e in s.events if e.kind == "call" and e.parts and e.parts[0] == ("a", keep, "insert") and e.seq < dumps[0].seq]
-            if keep[0] == "comp" and len(keep[3]) == 1 and len(keep[3][0][1]) == 1 and len(ins) == 1 and ins[0].term[2][0] == C(0) and not residual(ins[0], ()):
+            item = None
+            if keep[0] == "cat" and len(keep[1]) == 2 and keep[1][0][0] == "list" and len(keep[1][0][1]) == 1:
+                item, keep = keep[1][0][1][0], keep[1][1]          # [new] + others
+            else:
+                ins = [e for e in s.events if e.kind == "call" and e.parts and e.parts[0] == ("a", keep, "insert") and e.seq < dumps[0].seq]
+                if len(ins) == 1 and ins[0].term[2][0] == C(0) and not residual(ins[0], ()):
+                    item = ins[0].term[2][1]                        # others.insert(0, new)
+            if item is not None and keep[0] == "comp" and len(keep[3]) == 1 and len(keep[3][0][1]) == 1:
                 filt = keep[3][0][1][0]
                 ident = ("list", (sp.term("peer.host"), sp.term("peer.port"), sp.term("peer.direction")))
-                item = ins[0].term[2][1]
                 if filt[0] == "cmp" and filt[1] == "!=" and ident in (filt[2], filt[3]) and item[0] == "list" and item[1][:3] == ident[1] \
                         and keep[2] == ("e", keep[3][0][0], "elem"):
                     ok = True
